@@ -339,6 +339,41 @@ func init() {
 		return append(a, shuffle(g, groups)...)
 	})
 	add("str mixed", 3, func(g *G) []string { return []string{"SETNX", g.Key(), g.Val()} })
+	// every string command also meets keys of another type: a list, hash or set under a name the family uses, then SET
+	// with a combination of its options (NX / XX, GET, a deadline, KEEPTTL) and the commands that read it back
+	add("str", 3, func(g *G) []string {
+		k := g.Key()
+		var mk []string
+		switch g.R.Intn(3) {
+		case 0:
+			mk = []string{"RPUSH", k, "a", "b"}
+		case 1:
+			mk = []string{"HSET", k, "f", "v"}
+		default:
+			mk = []string{"SADD", k, "m"}
+		}
+		set := []string{"SET", k, g.Val()}
+		var groups [][]string
+		if g.R.Intn(3) != 0 {
+			groups = append(groups, []string{g.kw(g.pick("NX", "XX"))})
+		}
+		if g.R.Intn(2) == 0 {
+			groups = append(groups, []string{g.kw("GET")})
+		}
+		if g.R.Intn(3) == 0 {
+			groups = append(groups, []string{g.kw(g.pick("EX", "PX")), "100000"})
+		} else if g.R.Intn(3) == 0 {
+			groups = append(groups, []string{g.kw("KEEPTTL")})
+		}
+		set = append(set, shuffle(g, groups)...)
+		g.Script = append(g.Script, Step{1, mk}, Step{1, set}, Step{1, []string{"TYPE", k}},
+			Step{1, []string{g.pick("GETDEL", "STRLEN", "INCR", "GETEX", "GET"), k}},
+			Step{1, []string{"TYPE", k}})
+		if g.R.Intn(2) == 0 {
+			return []string{"DEL", k}
+		}
+		return []string{"TYPE", k}
+	})
 	add("str expiry mixed", 2, func(g *G) []string {
 		return []string{"SETEX", g.Key(), g.pick("100", "1000", "0", "-1", "50"), g.Val()}
 	})
